@@ -14,6 +14,7 @@ import plotly.figure_factory as ff
 import plotly.graph_objects as go
 
 from .base_facility import BaseFacilityState
+from .base_priority_rule import ResourcePriorityRuleMode, WorkplacePriorityRuleMode
 from .base_task import BaseTask, BaseTaskDependency, BaseTaskState
 from .base_worker import BaseWorkerState
 from .base_subproject_task import BaseSubProjectTask
@@ -128,6 +129,21 @@ class BaseWorkflow(object, metaclass=abc.ABCMeta):
                         output_task_list=j["output_task_list"],
                         allocated_team_list=j["allocated_team_list"],
                         allocated_workplace_list=j["allocated_workplace_list"],
+                        workplace_priority_rule=WorkplacePriorityRuleMode(
+                            j["workplace_priority_rule"]
+                        )
+                        if j.get("workplace_priority_rule") is not None
+                        else None,
+                        worker_priority_rule=ResourcePriorityRuleMode(
+                            j["worker_priority_rule"]
+                        )
+                        if j.get("worker_priority_rule") is not None
+                        else None,
+                        facility_priority_rule=ResourcePriorityRuleMode(
+                            j["facility_priority_rule"]
+                        )
+                        if j.get("facility_priority_rule") is not None
+                        else None,
                         need_facility=j["need_facility"],
                         target_component=j["target_component"],
                         default_progress=j["default_progress"],
@@ -175,6 +191,21 @@ class BaseWorkflow(object, metaclass=abc.ABCMeta):
                         output_task_list=j["output_task_list"],
                         allocated_team_list=j["allocated_team_list"],
                         allocated_workplace_list=j["allocated_workplace_list"],
+                        workplace_priority_rule=WorkplacePriorityRuleMode(
+                            j["workplace_priority_rule"]
+                        )
+                        if j.get("workplace_priority_rule") is not None
+                        else None,
+                        worker_priority_rule=ResourcePriorityRuleMode(
+                            j["worker_priority_rule"]
+                        )
+                        if j.get("worker_priority_rule") is not None
+                        else None,
+                        facility_priority_rule=ResourcePriorityRuleMode(
+                            j["facility_priority_rule"]
+                        )
+                        if j.get("facility_priority_rule") is not None
+                        else None,
                         need_facility=j["need_facility"],
                         target_component=j["target_component"],
                         default_progress=j["default_progress"],
